@@ -15,13 +15,13 @@ CHECK = dict(
     floors=dict(quick=dict(evaluations=40, events=60000, distinct=20,
                            cov={'C_CHAN_SEND_WAIT': 5000, 'C_CHAN_RECV_WAIT': 5000, 'send_timeout': 500, 'recv_timeout': 1500,
                                 'unbuf_two_senders_inside_send': 500, 'unbuf_send_timeout_with_receiver_inside_recv': 100,
-                                'close_with_buffered_items': 3, 'values_received_by_calls_made_after_close': 3,
+                                'close_with_buffered_items': 1, 'try_send_then_close_values_accepted': 200,
                                 'send_true_called_on_full_buffer': 1500, 'recv_true_called_on_empty_channel': 5000,
                                 'executions_of_clean_classes': 16, 'script_steps': 5000}),
                 thorough=dict(evaluations=200, events=600000, distinct=80,
                               cov={'C_CHAN_SEND_WAIT': 50000, 'C_CHAN_RECV_WAIT': 50000, 'send_timeout': 5000, 'recv_timeout': 15000,
                                    'unbuf_two_senders_inside_send': 5000, 'unbuf_send_timeout_with_receiver_inside_recv': 1000,
-                                   'close_with_buffered_items': 15, 'values_received_by_calls_made_after_close': 15,
+                                   'close_with_buffered_items': 5, 'values_received_by_calls_made_after_close': 3, 'try_send_then_close_values_accepted': 800,
                                    'send_true_called_on_full_buffer': 15000, 'recv_true_called_on_empty_channel': 50000,
                                    'executions_of_clean_classes': 90, 'script_steps': 50000})),
     assumptions=['x86-TSO hardware; weaker orderings only through TSan',
